@@ -39,6 +39,11 @@ theorem L.next_tokRev {l : L} {r : Rune} {rs : List Rune} (h : l.right = r :: rs
 theorem L.peek_snd {l : L} {r : Rune} {rs : List Rune} (h : l.right = r :: rs) : (l.peek).2 = r := by
   rw [L.peek_rune, L.next_snd h]
 
+theorem L.next_snd_eq (l : L) : (l.next).2 = l.right.headD eofRune := by
+  unfold L.next; cases l.right <;> simp
+theorem L.peek_snd_eq (l : L) : (l.peek).2 = l.right.headD eofRune := by
+  rw [L.peek_rune, L.next_snd_eq]
+
 @[simp] theorem L.atEOL_fst (l : L) : (l.atEOL).1 = (l.next).1.backup := rfl
 
 theorem L.atEOL_snd (l : L) : (l.atEOL).2 = startsEol l.right := by
@@ -69,6 +74,8 @@ theorem L.atEOL_snd (l : L) : (l.atEOL).2 = startsEol l.right := by
 
 @[simp] theorem views_emit (l : L) (t : TT) : views (l.emit t) = views l ++ [(t, l.tokRev.reverse)] := by
   simp [views, L.emit, view]
+
+@[simp] theorem views_absorb (l : L) (n : Nat) : views (l.absorb n) = views l := rfl
 
 theorem views_congr {l l' : L} (h : l'.toks = l.toks) : views l' = views l := by simp [views, h]
 
